@@ -157,3 +157,47 @@ Theorem C15_cert_check_crl_listed : forall fetch p c i s es serial,
   cert_check_crl fetch p c i s es serial = false.
 Proof. exact cert_check_crl_listed. Qed.
 Print Assumptions C15_cert_check_crl_listed.
+
+(* wave 5 *)
+(* names composed by x509_name_add_* / x509_name_set parse back to exactly the attributes supplied *)
+Theorem C15_name_roundtrip : forall l der, name_build l = Some der -> name_dec (S (length l)) der = Some l.
+Proof. exact name_roundtrip. Qed.
+Print Assumptions C15_name_roundtrip.
+
+Theorem C15_name_build_sound : forall l der, name_build l = Some der ->
+  Forall (fun a => attr_ok a = true) l /\ der = name_enc l.
+Proof. exact name_build_sound. Qed.
+Print Assumptions C15_name_build_sound.
+
+Theorem C15_name_get_value_first : forall l t tag v,
+  name_get_value l t = Some (tag, v) <->
+  exists pre post, l = pre ++ (t, tag, v) :: post /\ Forall (fun a => fst (fst a) <> t) pre.
+Proof. exact name_get_value_first. Qed.
+Print Assumptions C15_name_get_value_first.
+
+Theorem C15_certs_by_index : forall A (l : list (option A)) i a,
+  certs_by_index l i = FHit a <-> (nth_error l i = Some (Some a) /\ Forall (fun x => x <> None) (firstn i l)).
+Proof. exact certs_by_index_hit. Qed.
+Print Assumptions C15_certs_by_index.
+
+(* x509_crl_check, over unbounded integers *)
+Theorem C15_crl_check_exact : forall agree version this next now exts,
+  crl_check agree version this next now exts = true <->
+  (agree = true /\ (version = 0 \/ version = 1)%Z /\ (this <= now)%Z /\
+   (forall n, next = Some n -> (now < n)%Z) /\
+   Forall (fun e => fst e <> CE_delta_or_idp /\ snd e <> 1%Z) exts).
+Proof. exact crl_check_exact. Qed.
+Print Assumptions C15_crl_check_exact.
+
+(* GeneralName: with the writer repaired (constructed tag for otherName / x400Address / directoryName / ediPartyName)
+   every name the builder emits reads back as the same choice and content; the tree as found does not *)
+Theorem C15_general_name_roundtrip : forall choice d der rest,
+  len d < 2147483648 -> general_name_enc true choice d = Some der ->
+  general_name_dec (der ++ rest) = Some (choice, d, rest).
+Proof. exact general_name_roundtrip. Qed.
+Print Assumptions C15_general_name_roundtrip.
+
+Theorem C15_general_name_roundtrip_refuted_legacy :
+  exists choice d der, general_name_enc false choice d = Some der /\ general_name_dec der = None.
+Proof. exact general_name_roundtrip_refuted_legacy. Qed.
+Print Assumptions C15_general_name_roundtrip_refuted_legacy.
